@@ -897,7 +897,7 @@ pub fn c14_checks() -> Vec<Box<dyn DynCheck>> {
 
 // ------------------------------------------------------------------------------ C15
 
-pub const C15_RULE: &str = "(a) the WHOLE compiled opening-book trie is walked depth-first through Book::default().get_next_moves(prefix): the prefix must replay legally from the standard starting position on the reference rules and every child (from, to) must be the from/to of a reference-legal move there; (b) at every trie node a Game::new(1) is advanced by the prefix through the Game API and select_waterfall_book_then_alpha_beta_best_move is called k times (the engine's own thread_rng picks among children): Ok(move) in the reference legal set, snapshot unchanged; (c) off-book histories: follow a book line for j plies, then deviate with generated legal moves, asking for the engine's move at every step; (d) supplied positions: Game::from_board(set-up from the themes) - histories that are empty or match book moves by squares only - must yield Ok(legal move) whenever a legal move exists; (e) the built `chess play` binary is driven over stdin: after every typed move the diagram printed before the next prompt must be the reference successor of one of the engine's legal moves. Non-trivial = trie node with >= 1 continuation, off-book deviation, or supplied position in which a root book move is not legal; distinct = hash of the prefix / case.";
+pub const C15_RULE: &str = "(a) the WHOLE compiled opening-book trie is walked depth-first through Book::default().get_next_moves(prefix): the prefix must replay legally from the standard starting position on the reference rules and every child (from, to) must be the from/to of a reference-legal move there; (b) at every trie node a Game::new(1) is advanced by the prefix through the Game API and select_waterfall_book_then_alpha_beta_best_move is called k times (the engine's own thread_rng picks among children): Ok(move) in the reference legal set, snapshot unchanged; (c) off-book histories: follow a book line for j plies, then deviate with generated legal moves, asking for the engine's move at every step; (d) supplied positions: Game::from_board(set-up from the themes) - histories that are empty or match book moves by squares only - must yield Ok(legal move) whenever a legal move exists; (e) deep blocked: kings and blocked pawn pairs (only kings can move) searched at growing depths (8..22, bounded by node counts); (f) the built `chess play` binary is driven over stdin: after every typed move the diagram printed before the next prompt must be the reference successor of one of the engine's legal moves. Non-trivial = trie node with >= 1 continuation, off-book deviation, or supplied position in which a root book move is not legal; distinct = hash of the prefix / case.";
 
 fn book_children(book: &Book, prefix: &[Mv]) -> Vec<(u8, u8)> {
     let line: Vec<BookMove> = prefix.iter().map(|m| BookMove::new(bb(m.from), bb(m.to))).collect();
@@ -1511,7 +1511,7 @@ pub fn c15_checks() -> Vec<Box<dyn DynCheck>> {
 
 // ------------------------------------------------------------------------------ C17
 
-pub const C17_RULE: &str = "model-based histories on few-piece and opening positions with a shuffle-biased policy (Reverse = play the mover's previous move backwards, so positions recur; Move/Quiet for triangulation; rook/king excursions that lose castling rights; double steps creating en-passant opportunities) and interleaved undos: every position is registered as it arises (turn flipped by the caller first, as the game loops do) and unregistered before its move is undone. Oracle: reference multiset keyed by (placement, side to move, castling rights, en-passant target): count_current_position() == occurrences after insertion, uncount_current_position() == occurrences after removal, max_seen_position_count() == last reported count. Where the literal en-passant-target reading and the FIDE reading (target only counts if a capture is possible) give different counts the step is not asserted (counted as ep-ambiguous). Game level: shuffle games through Game::from_board / apply_chess_move_by_from_to_coordinates / toggle_turn: check_game_over_for_current_turn() on non-terminal positions must be Draw iff the current position has now occurred three times (or the half-move clock reached 100). Mixed games from the standard start: engine moves (opening book first) and typed shuffling moves on one Game. Engine games: the engine plays both sides through make_waterfall_book_then_alpha_beta_move from tiny endgames (every move legal, successor exact, draw verdict iff third occurrence). Non-trivial = history has a true recurrence (count >= 2) and a look-alike (same placement with the other side to move or other rights/ep); distinct = hash of the op sequence.";
+pub const C17_RULE: &str = "model-based histories on few-piece and opening positions with a shuffle-biased policy (lines of up to 90 plies, one case in thirteen a line of 100..150 plies followed by a partial or full unwinding and more shuffling; Reverse = play the mover's previous move backwards, so positions recur; Move/Quiet for triangulation; rook/king excursions that lose castling rights; double steps creating en-passant opportunities) and interleaved undos: every position is registered as it arises (turn flipped by the caller first, as the game loops do) and unregistered before its move is undone. Oracle: reference multiset keyed by (placement, side to move, castling rights, en-passant target): count_current_position() == occurrences after insertion, uncount_current_position() == occurrences after removal, max_seen_position_count() == last reported count. Where the literal en-passant-target reading and the FIDE reading (target only counts if a capture is possible) give different counts the step is not asserted (counted as ep-ambiguous). Game level: shuffle games through Game::from_board / apply_chess_move_by_from_to_coordinates / toggle_turn: check_game_over_for_current_turn() on non-terminal positions must be Draw iff the current position has now occurred three times (or the half-move clock reached 100). Mixed games from the standard start: engine moves (opening book first) and typed shuffling moves on one Game. Engine games: the engine plays both sides through make_waterfall_book_then_alpha_beta_move from tiny endgames (every move legal, successor exact, draw verdict iff third occurrence). Non-trivial = history has a true recurrence (count >= 2) and a look-alike (same placement with the other side to move or other rights/ep); distinct = hash of the op sequence.";
 
 #[derive(Clone, Debug, Serialize, Deserialize, PartialEq)]
 pub enum ROp {
@@ -1609,10 +1609,26 @@ impl Prop for C17Board {
         "C17/board"
     }
     fn strategy(&self, _tier: Tier) -> BoxedStrategy<RepCase> {
-        (rep_seed(), rep_ops(90)).prop_map(|(fen, ops)| RepCase { fen, ops }).boxed()
+        prop_oneof![
+            12 => (rep_seed(), rep_ops(90)).prop_map(|(fen, ops)| RepCase { fen, ops }),
+            // long lines: more than a hundred registered plies (the half-move clock passes 100),
+            // a partial or full unwinding, then shuffling on what is left
+            1 => (
+                rep_seed(),
+                prop::collection::vec(prop_oneof![5 => any::<u16>().prop_map(ROp::Quiet), 2 => Just(ROp::Reverse), 1 => any::<u16>().prop_map(ROp::Move)], 100..150),
+                0usize..160,
+                rep_ops(24),
+            )
+                .prop_map(|(fen, mut ops, unwind, tail)| {
+                    ops.extend(std::iter::repeat(ROp::Undo).take(unwind));
+                    ops.extend(tail);
+                    RepCase { fen, ops }
+                }),
+        ]
+        .boxed()
     }
     fn cases(&self, tier: Tier) -> u32 {
-        tier.pick(20_000, 400_000)
+        tier.pick(60_000, 400_000)
     }
     fn test(&self, c: &RepCase, st: &mut Stats) -> TestResult {
         let mut seed = Pos::from_fen(&c.fen).map_err(Failure::new)?;
@@ -1628,6 +1644,7 @@ impl Prop for C17Board {
         let mut recurrence = false;
         let mut lookalike = false;
         let mut ambiguous = 0u64;
+        let mut max_depth = 0usize;
 
         let mut register = |board: &mut Board,
                             cur: &Pos,
@@ -1731,6 +1748,7 @@ impl Prop for C17Board {
                         board.toggle_turn();
                         let next = cur.make(&m);
                         stack.push((std::mem::replace(&mut cur, next), m));
+                        max_depth = max_depth.max(stack.len());
                         register(&mut board, &cur, &mut lit, &mut fide, &mut reported, &mut recurrence, &mut lookalike, &mut ambiguous)?;
                     }
                 }
@@ -1742,6 +1760,9 @@ impl Prop for C17Board {
         }
         if lookalike {
             st.label("look-alike");
+        }
+        if max_depth > 100 {
+            st.label("more-than-100-registered-plies-in-a-line");
         }
         if recurrence && lookalike {
             st.nontrivial(fp_of(c), || json!({"seed": c.fen, "ops": format!("{:?}", &c.ops[..c.ops.len().min(16)])}));
@@ -1772,7 +1793,7 @@ impl Prop for C17Game {
             .boxed()
     }
     fn cases(&self, tier: Tier) -> u32 {
-        tier.pick(640, 16_000)
+        tier.pick(3_000, 16_000)
     }
     fn test(&self, c: &RepCase, st: &mut Stats) -> TestResult {
         let mut cur = Pos::from_fen(&c.fen).map_err(Failure::new)?;
@@ -1889,7 +1910,7 @@ impl Prop for C17EngineGame {
             .boxed()
     }
     fn cases(&self, tier: Tier) -> u32 {
-        tier.pick(96, 2_400)
+        tier.pick(192, 2_400)
     }
     fn test(&self, c: &EngineGameCase, st: &mut Stats) -> TestResult {
         let mut cur = Pos::from_fen(&c.fen).map_err(Failure::new)?;
@@ -2010,7 +2031,7 @@ impl Prop for C16GameApi {
             .boxed()
     }
     fn cases(&self, tier: Tier) -> u32 {
-        tier.pick(600, 15_000)
+        tier.pick(3_000, 15_000)
     }
     fn test(&self, c: &RepCase, st: &mut Stats) -> TestResult {
         let mut cur = Pos::from_fen(&c.fen).map_err(Failure::new)?;
@@ -2135,7 +2156,7 @@ impl Prop for C17MixedGame {
         .boxed()
     }
     fn cases(&self, tier: Tier) -> u32 {
-        tier.pick(320, 8_000)
+        tier.pick(1_200, 8_000)
     }
     fn test(&self, c: &MixedCase, st: &mut Stats) -> TestResult {
         let mut cur = Pos::start();
